@@ -76,6 +76,8 @@ pub trait Lab<C: Ciphersuite> {
     fn draw_scalar(&mut self, k: usize) -> Option<Scalar<C>>;
     /// the bytes the random source returned for request number `k`
     fn draw_bytes(&mut self, k: usize) -> Option<Vec<u8>>;
+    /// all values pairwise different except on a hypersurface (rule GR), or concretely
+    fn all_distinct_generic(&mut self, xs: &[Scalar<C>], what: &str) -> bool;
     /// byte strings are equal: literal parts byte for byte, embedded values by rule ID
     fn eq_bytes(&mut self, a: &[u8], b: &[u8], what: &str) -> bool;
     /// numeric order of two (concrete) scalars as integers in [0, q), independent of
